@@ -449,3 +449,31 @@ def stop_iteration(L, thr, cap):
             if conv <= thr:
                 return k, closest
     return (cap if cap is not None else None), closest
+
+
+def ivec_em_step(stats, T, sigma, ubm_mu, update_sigma, floor):
+    """One exact EM step for (T, sigma): T_c = C_c A_c^-1, sigma_c = (S~_c - diag(T_c C_c'))/N_c."""
+    C, F, R = T.shape
+    A = np.zeros((C, R, R))
+    Cc = np.zeros((C, F, R))
+    S = np.zeros((C, F))
+    N = np.zeros(C)
+    for st in stats:
+        n, f, s = st["n"], st["sum_px"], st["sum_pxx"]
+        w, L, b = ivec_posterior(n, f, T, sigma, ubm_mu)
+        Eww = np.linalg.inv(L) + np.outer(w, w)
+        for c in range(C):
+            A[c] += n[c] * Eww
+            Cc[c] += np.outer(f[c] - n[c] * ubm_mu[c], w)
+            S[c] += s[c] - 2 * f[c] * ubm_mu[c] + n[c] * ubm_mu[c] ** 2
+            N[c] += n[c]
+    T2 = np.zeros_like(T)
+    sig2 = np.array(sigma, float)
+    for c in range(C):
+        if A[c].any():
+            T2[c] = np.linalg.solve(A[c].T, Cc[c].T).T
+        if update_sigma and N[c] > 0:
+            sig2[c] = (S[c] - np.einsum("fr,fr->f", T2[c], Cc[c])) / N[c]
+    if update_sigma:
+        sig2 = np.maximum(sig2, floor)
+    return T2, sig2
